@@ -1640,9 +1640,13 @@ public:
       return;
     }
 
-    linear_expression_t e(x);
-    term_id_t tx(build_linexpr(e));
-    rebind_var(y, tx);
+    // y must have the same value as x but not be equal to x (x can
+    // be a summarized variable): y is bound to a fresh term whose
+    // value is a copy of the value of x's term.
+    term_id_t tx(term_of_var(x));
+    term_id_t ty(_ttbl.fresh_var());
+    _impl.expand(domvar_of_term(tx), domvar_of_term(ty));
+    rebind_var(y, ty);
 
     check_terms(__LINE__);
   }
